@@ -33,7 +33,7 @@ ASSUMPTIONS = [
     "warnings are allowed; only exceptions and values are judged",
 ]
 SHARDS = {"quick": 12, "thorough": 14}
-FLOORS = {"quick": {"aligned_files": 30, "short_read_loads": 1000, "path_loads_with_mmap_mode": 3000, "damaged_loads": 15000, "suffix_loads": 1000, "memory_damaged_calls": 150, "files": 150},
+FLOORS = {"quick": {"aligned_files": 30, "short_read_loads": 1000, "path_loads_with_mmap_mode": 3000, "damaged_loads": 15000, "suffix_loads": 1000, "memory_damaged_calls": 150, "files": 150, "calls_on_a_valid_entry_that_cannot_be_loaded_any_more": 30},
           "thorough": {"aligned_files": 60, "short_read_loads": 20000, "path_loads_with_mmap_mode": 60000, "damaged_loads": 300000, "suffix_loads": 20000, "memory_damaged_calls": 3000, "files": 3000}}
 EXHAUSTIVE = {"quick": False, "thorough": False}
 
@@ -44,6 +44,77 @@ EXEC = []
 def cached_fn(x, n):
     EXEC.append((x, n))
     return {"x": x, "payload": "p" * n, "list": [x, n]}
+
+
+def cached_lib(kind, x):
+    EXEC.append((kind, x))
+    from vlib import c14_helper
+    return c14_helper.build(kind, x)
+
+
+def run_unloadable(case, ctx):
+    """a VALID entry that the calling process cannot load any more: the class of the stored result was renamed in the helper
+    library (AttributeError from the unpickler) or its constructor changed (TypeError) while the cached function's own source
+    is the same - like a damaged entry, it has to be recomputed, not raised"""
+    from joblib import Memory
+    from vlib import c14_helper as lib
+    rng = harness.rng_for(ctx.seed, ID, "unloadable", case["i"])
+    d = harness.mkscratch("vjl-c14u-")
+    kind = ["report", "pair"][case["i"] % 2]
+    try:
+        with warnings.catch_warnings():
+            warnings.simplefilter("ignore")
+            mem = Memory(d, verbose=rng.choice([0, 0, 11]), compress=rng.choice([False, True]))
+            f = mem.cache(cached_lib)
+        x = rng.randrange(1000)
+        f(kind, x)
+        ctx.evaluated()
+        # the library is 'upgraded'
+        if kind == "report":
+            lib.ReportB = type("ReportB", (lib.ReportA,), {})
+            lib.ReportB.__module__ = lib.__name__
+            saved = lib.ReportA
+            del lib.ReportA
+            lib.STATE["cls"] = "ReportB"
+        else:
+            orig_init = lib.Pair.__init__
+            lib.STATE["pair_args"] = 1          # what was stored holds two constructor arguments ...
+
+            def init1(self, a):                 # ... the class now takes one
+                self.a, self.b = a, "b"
+            lib.Pair.__init__ = init1
+        try:
+            del EXEC[:]
+            for attempt in (1, 2):
+                via_shelve = rng.random() < 0.3
+                try:
+                    with warnings.catch_warnings():
+                        warnings.simplefilter("ignore")
+                        got = f(kind, x)
+                    err = None
+                except Exception as e:  # noqa
+                    got, err = None, f"{type(e).__name__}: {str(e)[:160]}"
+                ctx.count("calls_on_a_valid_entry_that_cannot_be_loaded_any_more")
+                desc = dict(kind=kind, attempt=attempt, change="class renamed" if kind == "report" else "constructor takes fewer arguments")
+                if err:
+                    ctx.violation(f"raises:memory+valid-entry-unloadable:{err.split(':')[0]}", f"cached call on an entry whose stored object cannot be rebuilt ({desc['change']}) -> {err}", desc)
+                    return
+                want = lib.build(kind, x)
+                if got != want or type(got).__name__ != type(want).__name__:
+                    ctx.violation("wrong-value:memory+valid-entry-unloadable", f"cached call returned {got!r}, expected a {type(want).__name__}", desc)
+                    return
+            if len(EXEC) != 1:
+                ctx.violation("recomputed-twice:memory+valid-entry-unloadable", f"the function ran {len(EXEC)}x over two calls after the entry became unloadable (expected once: the recomputed entry is stored)", dict(kind=kind))
+            ctx.sig(("unloadable", kind, x % 7))
+        finally:
+            if kind == "report":
+                lib.ReportA = saved
+                lib.STATE["cls"] = "ReportA"
+            else:
+                lib.Pair.__init__ = orig_init
+                lib.STATE["pair_args"] = 2
+    finally:
+        shutil.rmtree(d, ignore_errors=True)
 
 
 def shard_setup(tier):
@@ -63,6 +134,8 @@ def cases(tier, seed):
     m = 60 if tier == "quick" else 1200
     for i in range(m):
         yield dict(i=i, kind="memory")
+    for i in range(24 if tier == "quick" else 240):
+        yield dict(i=i, kind="unloadable")
     # compressed files whose length sits at chosen residues modulo the 8192-byte read block (the checksum trailer alone
     # in the last block, the stream ending exactly on a block boundary, ...)
     k = 0
@@ -202,6 +275,8 @@ def aligned_file(rng, method, residue, blocks):
 
 
 def run_case(case, ctx):
+    if case["kind"] == "unloadable":
+        return run_unloadable(case, ctx)
     if case["kind"] == "memory":
         return run_memory(case, ctx)
     if case["kind"] == "aligned":
